@@ -13,10 +13,10 @@ from vf.core import sig_of  # noqa: E402
 
 ID = "C17"
 LEVEL = "exploration"
-RULE = ("chains of 1-5 wrappers over one address (HttpConn with 0-2 adapters given as list or single object, "
+RULE = ("chains of 1-5 wrappers over one address given as str, list, tuple or dict (with and without trailing slash) (HttpConn with 0-2 adapters given as list or single object, "
         "BAuthConn, ClientAuthConn, TokenAuthConn - at most one authenticating layer -, path prefixes with and "
         "without slashes, response recorders); histories on shared connections: request through X, derive Y from "
-        "X, request through Y, through X again, add_adapter on a derived connection, MCallerHttp subclass with "
+        "X, request through Y, through X again, add_adapter on a derived connection, two derivations from one adapters list object, MCallerHttp subclass with "
         "_HTTP_PREFIX_MAP built on X, clone() with None / one adapter / list, calls through the clone and through "
         "the original caller (cached prefixed connections), request through X again; arguments: all five verbs, "
         "params, str / bytes / dict / list bodies, caller headers; caller objects are deep-copied beforehand. A fake "
@@ -97,8 +97,14 @@ class M(MCallerHttp):
 
 
 def build(rng, log):
-    address = rng.choice(["http://h", "http://h:80/", "https://h/base"])
-    conn = H.HttpConn(address)
+    address = rng.choice(["http://h", "http://h:80/", "https://h/base", "http://h/root/"])
+    how = rng.choice(["str", "str", "list", "tuple", "dict"])
+    if how == "str":
+        conn = H.HttpConn(address)
+    else:
+        # the implementation object is built from the arguments as given: no trailing slash is removed
+        conn = H.HttpConn([address] if how == "list" else (address,) if how == "tuple" else {'address': address})
+        address = ("raw", address)
     layers = []
     auth_used = False
     for _ in range(rng.randint(0, 4)):
@@ -147,9 +153,14 @@ def expected(address, layers, path, method, params, data, headers):
             hdr['Authorization'] = (a[1], a[2])
     if params:
         path += "?" + urlencode(params)
-    addr = address[:-1] if address.endswith('/') else address
-    if not path.startswith('/'):
-        path = '/' + path
+    if isinstance(address, tuple):
+        addr = address[1]          # "address + path", a '/' is inserted only when neither side has one
+        if not addr.endswith('/') and not path.startswith('/'):
+            path = '/' + path
+    else:
+        addr = address[:-1] if address.endswith('/') else address
+        if not path.startswith('/'):
+            path = '/' + path
     url = addr + path
     if data is None:
         body = None
@@ -251,6 +262,7 @@ def run_history(ctx, rng, case):
         do(d, d_layers, "derived")
         do(conn, layers, "orig after derive")
         ctx.count("requests_through_original_after_derivation")
+        d_now = d_layers
         if rng.random() < 0.5:
             # add_adapter on the derived connection must not leak into the original
             tag = "t%d" % rng.randrange(10 ** 6)
@@ -260,16 +272,38 @@ def run_history(ctx, rng, case):
             added = ('rec', tag) if isinstance(extra, Rec) else ('prefix', "/late")
             # own adapters of the derived connection come first, parents' follow, the added one is last
             d_layers2 = [[added]] + d_layers
+            d_now = d_layers2
             do(d, d_layers2, "derived after add_adapter")
             do(conn, layers, "orig after add_adapter on derived")
             ctx.count("requests_through_original_after_derivation")
+        if rng.random() < 0.5:
+            # the caller keeps its list of adapters and uses the same list object again
+            shared = [H.RequestAdapterAddPathPrefix("/s1")]
+            if rng.random() < 0.5:
+                shared.append(H.RequestAdapterAddPathPrefix("/s2"))
+            shared_descr = [('prefix', a.prefix) for a in shared]
+            keep_ids = [id(a) for a in shared]
+            e1 = H.HttpConn(conn, adapters=shared)
+            e2 = H.HttpConn(d, adapters=shared)
+            steps.append(["two derivations from one adapters list"])
+            do(e1, layers + [shared_descr], "first user of shared list")
+            do(e2, d_now + [shared_descr], "second user of shared list")
+            do(e1, layers + [shared_descr], "first user again")
+            if [id(a) for a in shared] != keep_ids:
+                fail("caller-adapter-list-modified", {"len_before": len(keep_ids), "len_after": len(shared)})
+            do(conn, layers, "orig after shared-list derivations")
         m = M(conn if isinstance(conn, H.HttpConn) else H.HttpConn(conn))
         ml = layers if isinstance(conn, H.HttpConn) else layers + [[]]
         a1, a2 = H.RequestAdapterAddPathPrefix("/c1"), H.RequestAdapterAddPathPrefix("/c2")
         how = rng.choice(['none', 'one', 'list', 'list'])
         steps.append(["clone", how])
+        clone_arg = None if how == 'none' else a1 if how == 'one' else [a1, a2]
         try:
-            cl = m.clone(None if how == 'none' else a1 if how == 'one' else [a1, a2])
+            cl = m.clone(clone_arg)
+            if how == 'list' and rng.random() < 0.5:
+                m.clone(clone_arg)      # a second clone from the very same list object
+                if clone_arg != [a1, a2]:
+                    fail("caller-adapter-list-modified", {"len_after": len(clone_arg)})
         except Exception as err:
             fail("clone-raises", {"how": how, "type": type(err).__name__, "msg": str(err)[:150]})
         if how == 'list':
@@ -295,7 +329,7 @@ def run_history(ctx, rng, case):
         ctx.count("requests_through_original_after_derivation")
         flat = [a for layer in layers for a in layer]
         if len(layers) >= 3 and any(a[0] == 'auth' for a in flat) and any(a[0] == 'prefix' for a in flat):
-            ctx.nontrivial(sig_of([address, layers, steps]))
+            ctx.nontrivial(sig_of([list(address) if isinstance(address, tuple) else address, layers, steps]))
     except Stop:
         pass
     return steps
